@@ -35,13 +35,16 @@ RULE = (
     "words_objs.py, also the same words with other statistics. (equiv, 6%) Constructor.equiv alone on the four library "
     "constructor types with random parameter dictionaries. 11% of the constructed bijections are additionally sent "
     "through to_jsonable / json / from_dict and the RELOADED bijection is the one examined. Per case: "
-    "Isomorphism(spec1, spec2), Bijection.construct, check(spec2, spec1), check(s, s); for every size n <= N (N = 4..6, "
+    "Isomorphism(spec1, spec2), Bijection.construct, check(spec2, spec1), check(s, s) (required to be True on every "
+    "specification whose NON-EMPTY verified classes are all atoms and that meets the other decided hypotheses of "
+    "C12_check_reflexive_nonempty - about 99% of the searched specifications); for every size n <= N (N = 4..6, "
     "raised to the minimum size + 2) every object of both start classes (brute force) is mapped and mapped back. The "
     "model runs its own search on descriptors of the two specifications, runs the proved checker on the order map THE "
     "IMPLEMENTATION built and maps the parse trees of the objects (<= 36 per direction, spread over all sizes) with that order map; "
     "compared: found-or-not, checker verdict, every mapped tree, the ENTRIES of the order map the model's own search leaves "
-    "against the real Bijection's (insertion order ignored), and the verdicts wf_spec of both descriptors (Iso/Deciders.v "
-    "wf_specb against Desc.wf). Non-trivial: a bijection was constructed and >= 8 "
+    "against the real Bijection's (insertion order ignored), the verdicts wf_spec of both descriptors (Iso/Deciders.v "
+    "wf_specb against Desc.wf) and the verdicts of the reflexivity hypotheses of both descriptors (Iso/DecidersRefl.v "
+    "refl_hypsb against Desc.refl_hyps). Non-trivial: a bijection was constructed and >= 8 "
     "objects were mapped (equiv stream: >= 2 non-empty dictionaries); distinct = distinct case description."
 )
 TECHNIQUE = (
@@ -50,7 +53,7 @@ TECHNIQUE = (
     "specifications + an independent brute-force oracle (bijectivity on the objects, symmetry, reflexivity)"
 )
 LEVEL_TEXT = (
-    "Theorems of coq/theories/Props/C12.v (32, all closed under the global context). The model of the search takes a "
+    "Theorems of coq/theories/Props/C12.v (36, all closed under the global context). The model of the search takes a "
     "flag `exact` for the recursive-match test: true = /repo as it is since fix 91c1aef (_ancestors holds only the pair of "
     "current classes), false = the code before that fix (_ancestors held product(eq_path1, eq_path2); historic, run by no "
     "case); the harness detects which one the code under test implements (today: exact = true) and runs the model with "
@@ -84,7 +87,15 @@ LEVEL_TEXT = (
     "code only); "
     "REFLEXIVITY: C12_reflexive_atoms, C12_check_reflexive (no fuel) - under eq_wf, every rule with children is a Rule "
     "with a non-empty child, closed on non-empty children, the root has a rule, childless rules are atoms; "
-    "C12_reflexive_never_false (two of these hypotheses); "
+    "C12_reflexive_never_false (two of these hypotheses); REFLEXIVITY UP TO EMPTY CLASSES: "
+    "C12_check_reflexive_nonempty (no fuel) / C12_reflexive_nonempty (explicit fuel) - the same conclusion "
+    "check(s, s) = True with every one of those hypotheses asked for the NON-EMPTY classes only (plus: the root is not "
+    "empty): the search only descends into the non-empty children of a rule, so the EmptyStrategy rules (childless, "
+    "not atoms) that every searched specification holds for its empty classes do not matter; both are instances of "
+    "C12_reflexive_visited (hypotheses asked on any set of classes that holds the root and is closed under 'non-empty "
+    "child of'; all classes = C12_reflexive_atoms); C12_check_reflexive_decided (refl_hypsb s = true -> check(s, s) = "
+    "True: the hypotheses are decided on the descriptor of EVERY specification of every case by the extracted run, "
+    "Iso/DecidersRefl.v, and recomputed by the harness, the two compared); "
     "C12_check_true_bijection (no fuel: when check answers True the bijection constructed from the terminating run is "
     "a size-preserving bijection with a true inverse). "
     "OBJECTS (Iso/ParseTreesIso.v + the development Count/ParseTrees*.v shared with C07 and C08): per specification the "
@@ -120,6 +131,21 @@ LEVEL_NOTE = (
     "<= 36 objects per direction (Desc.tree = iparse), parse/unparse themselves by the C07 check, and the full brute-force "
     "bijectivity on all objects of sizes <= nmax is the oracle's (independent of the model). The descriptor reading of "
     "construct's guard (non-equivalence Rule with tag 2/3) is compared with the code's own test on every case. "
+    "REFLEXIVITY up to empty classes (CLAUSES.md C12 (c)1): before, theorem and oracle asked 'every verified class is an "
+    "atom' of ALL rules, the EmptyStrategy rules of the empty classes included, which holds on about 5% of the searched "
+    "specifications (262 of 5030, seed 0); C12_check_reflexive_nonempty asks it of the non-empty classes only (the search never reads the rule "
+    "of an empty class: Iso/ReflOn.v) and covers 5004 of 5028 / 5097 of 5116 / 5178 of 5200 searched specifications "
+    "(seeds 0, 1, 2; the rest hold a NON-EMPTY verified class that is not an atom, on which the test is not claimed "
+    "reflexive), decided per specification by the extracted refl_hypsb and by Desc.refl_hyps (compared), and the oracle "
+    "requires check(s, s) = True on each of them. Mutants that keep the 45 repo tests green and break reflexivity only in "
+    "the presence of empty children - empties kept on the second side only (first of >= 3 children; second of >= 4 "
+    "children), child count taken before filtering (rules with >= 2 empty children; rules with >= 4 children) - are all "
+    "reported as a non-reflexive test with the specification as failing input (first on a hand-built grammar or a "
+    "searched specification, whichever comes first); the variants for >= 4 children make check(s, s) False on a searched "
+    "specification in 80-90 of 387 word / statistics cases, of which the old gating ('all verified classes are atoms') "
+    "would have looked at a specification in 1; corpus case 12 pins one such searched specification. "
+    "Not claimed: reflexivity on a specification with an EMPTY root (check(s, s) is False there: two childless non-atoms) "
+    "or with a non-empty non-atom verified class. "
     "Outside the model: NonBijectiveRule / index data (no constructor of the library returns data), _path_tracker "
     "(never read), specifications with non-equivalence reverse rules (no bijection is constructed over them since "
     "25bcc90; a constructed bijection whose map raises NotImplementedError is an oracle failure). False NEGATIVES of the test (e.g. "
@@ -158,6 +184,15 @@ ASSUMPTIONS = [
     "recomputes the verdicts, extra_checks counts the constructed bijections covered (about 94%; the others are the "
     "specifications with statistics: StatAtom leaves have no leaf in the C07 descriptor). node_ok (bijection contracts of "
     "the strategies' maps) is NOT decided and stays a hypothesis",
+    "reflexivity (C12_check_reflexive_nonempty): eq_wf; the root is not empty and has a rule; every NON-EMPTY childless "
+    "(verified) class is an atom; every non-empty class with children has a Rule with a non-empty child; every "
+    "non-empty child of a non-empty class has a rule. DECIDED per specification on every case (refl_hypsb in the "
+    "extracted run = Desc.refl_hyps, compared; tag thm:C12_check_reflexive_nonempty:covered / not_covered(reason)); on "
+    "every covered specification the oracle REQUIRES Isomorphism.check(s, s) to be True; extra_checks "
+    "`covered_by_theorem C12_check_reflexive_nonempty: k of n searched specifications` has a floor of 0.95 (the "
+    "uncovered ones hold a non-empty verified class that is not an atom, where the test is not claimed reflexive). "
+    "is_empty is the class's own answer (trusted user code): a class wrongly declared empty is skipped by the real "
+    "search and by the theorem alike",
     "strategies honour the bijection contract of forward_map / backward_map and is_empty / is_atom are exact "
     "(indirectly, through the oracle's bijectivity check on the objects of sizes <= nmax of every case with a bijection)",
     "rules are plain Rule / EquivalenceRule / EquivalencePathRule / ReverseRule-of-equivalence / VerificationRule "
@@ -877,9 +912,52 @@ class Desc:
         return all(not (r[3] and r[2] and r[2][0] in rules and rules[r[2][0]][3]) for r in self.rules)
 
     def verified_all_atoms(self):
+        """every verified class is an atom OR EMPTY (searched specifications hold an EmptyStrategy rule for their
+        empty classes; _are_isomorphic never descends into an empty child)"""
+        from comb_spec_searcher.strategies.rule import VerificationRule
+
+        return all(c.is_atom() or c.is_empty() for c, r in self.spec.rules_dict.items()
+                   if isinstance(r, VerificationRule))
+
+    def verified_all_atoms_strict(self):
+        """the form before the weakening: every verified class, the empty ones included, is an atom (hypothesis of
+        C12_check_reflexive; false on ~96% of the searched specifications)"""
         from comb_spec_searcher.strategies.rule import VerificationRule
 
         return all(c.is_atom() for c, r in self.spec.rules_dict.items() if isinstance(r, VerificationRule))
+
+    def refl_hyps(self, strict=False):
+        """the hypotheses of C12_check_reflexive_nonempty, decided on the descriptor exactly as Iso/DecidersRefl.v
+        refl_hypsb does (the extracted run evaluates refl_hypsb on the same descriptor and the two verdicts are
+        COMPARED on every case); returns the list of the hypotheses that fail.  strict=True: the hypotheses of the
+        older C12_check_reflexive instead (every class, the empty ones included; no condition on the root being
+        non-empty) - only used to report how much the weakening gained"""
+        rules = {r[0]: r for r in self.rules}
+        empty = set() if strict else set(self.empty)
+        real_empty = set(self.empty)
+        bad = []
+        if "eq_wf" in self.wf():
+            bad.append("eq_wf")
+        if self.root in empty:
+            bad.append("root-empty")
+        if self.root not in rules:
+            bad.append("root-without-rule")
+        for c, r in rules.items():
+            _, isrule, kids, _iseq, _con, atom, _ = r
+            if c in empty:
+                continue            # the rule of an empty class is never read by the search on (s, s)
+            if not kids:
+                if not atom:
+                    bad.append("verified-class-not-an-atom" if strict else "non-empty-verified-class-not-an-atom")
+                continue
+            ne = [k for k in kids if k not in real_empty]
+            if not ne:
+                bad.append("no-non-empty-child")
+            if not isrule:
+                bad.append("children-of-non-rule")
+            if any(k not in rules for k in ne):
+                bad.append("not-closed")
+        return sorted(set(bad))
 
 
 def _code(ex):
@@ -1028,11 +1106,24 @@ def impl(case):
     if desc_blocked != bool(blocked) and not case.get("json"):
         why.append("descriptor guard: a non-equivalence Complement/Quotient rule is %s in the descriptors but "
                    "Bijection.construct's own test says %s" % ("present" if desc_blocked else "absent", bool(blocked)))
+    # reflexivity up to empty classes (C12_check_reflexive_nonempty): on every specification on which its hypotheses
+    # hold (Desc.refl_hyps = Iso/DecidersRefl.v refl_hypsb, decided on the descriptor, compared with the extracted
+    # run below) Isomorphism.check(s, s) MUST be True; also required (as before) whenever every verified class is an
+    # atom in the strict sense
+    refl = []
     for d, nm in ((d1, "spec1"), (d2, "spec2")):
-        if d.verified_all_atoms():
+        hyp = d.refl_hyps()
+        strict = d.verified_all_atoms_strict()
+        refl.append([int(not hyp), int(not d.refl_hyps(strict=True)), hyp])
+        if not hyp or strict:
             r = chk(d.spec, d.spec)
             if r is not True:
-                why.append("check(%s, %s) = %s although all its verified classes are atoms" % (nm, nm, r))
+                why.append("check(%s, %s) = %s although every NON-EMPTY verified class of %s is an atom%s - the test is not "
+                           "reflexive on this specification (failing input: %s of this case)"
+                           % (nm, nm, r, nm, " and the hypotheses of C12_check_reflexive_nonempty hold" if not hyp else "",
+                              nm))
+        if not hyp and not d.verified_all_atoms():
+            why.append("harness inconsistency: refl_hyps holds on %s but a verified class is neither an atom nor empty" % nm)
     order = bij._get_order if bij is not None else {}  # pylint: disable=protected-access
     out_order = [[d1.lab[c1], d2.lab[c2], list(p)] for (c1, c2), p in order.items()]
     trees1, trees2, res1, res2 = [], [], [], []
@@ -1122,6 +1213,11 @@ def impl(case):
     ov = objects_verdict(d1, d2, descs7)
     enc = enc + [descs7]
     out = out + [ov]
+    # appended output fields 10, 11 of run_c12: Iso/DecidersRefl.v refl_hypsb of the two descriptors (the hypotheses of
+    # C12_check_reflexive_nonempty, decided; sound by C12_check_reflexive_decided) against Desc.refl_hyps
+    out = out + [r[0] for r in refl]
+    for r, nm in zip(refl, ("spec1", "spec2")):
+        tags.append("thm:C12_check_reflexive_nonempty:%s" % ("covered" if r[0] else "not_covered(%s)" % " + ".join(r[2])))
     if bij is not None:
         names = ("idescribes spec1", "rank spec1", "closed spec1", "idescribes spec2", "rank spec2", "closed spec2")
         missing = ["no C07 descriptor"] if not ov else [h for h, b in zip(names, ov) if not b]
@@ -1138,7 +1234,8 @@ def impl(case):
                    % (found, back, "" if isflat else " [chained equivalence rules]"))
     shape = _shape(d1, d2, out_order)
     return {"out": out, "enc": enc, "how": how, "why": "; ".join(why[:3]) or None, "tags": tags + shape,
-            "nobj": len(trees1), "unsupported": unsupported}
+            "nobj": len(trees1), "unsupported": unsupported,
+            "refl": [r[:2] for r in refl], "refl_why": [r[2] for r in refl], "searched": int(case["t"] in ("w", "s"))}
 
 
 def _shape(d1, d2, order):
@@ -1168,9 +1265,10 @@ def canon_model(mo):
     the order of a dict is not observable through Bijection.map; the fields after it are compared"""
     if isinstance(mo, list) and len(mo) == 6:
         return mo[:5]
-    if isinstance(mo, list) and len(mo) in (9, 10):
+    if isinstance(mo, list) and len(mo) in (9, 10, 12):
         # fields 6-8 ARE compared: same ENTRIES as the implementation's order map (insertion order ignored), and the
-        # verdicts wf_specb of the two descriptors (Iso/Deciders.v) against Desc.wf
+        # verdicts wf_specb of the two descriptors (Iso/Deciders.v) against Desc.wf; fields 10-11: refl_hypsb of the two
+        # descriptors (Iso/DecidersRefl.v) against Desc.refl_hyps
         return mo[:5] + mo[6:]
     return mo
 
@@ -1237,6 +1335,42 @@ def _extra_covered(ctx):
     ]
 
 
+MIN_COVERED_REFL = 0.95     # of the searched specifications; measured: see LEVEL_NOTE
+
+
+def _extra_reflexive(ctx):
+    """on how many SEARCHED specifications (word / statistics streams: found by CombinatorialSpecificationSearcher or
+    the parallel finder, possibly reloaded from JSON) the hypotheses of C12_check_reflexive_nonempty hold as decided
+    verdicts (refl_hypsb in the extracted run = Desc.refl_hyps here, compared by the core); on every one of them the
+    oracle has REQUIRED Isomorphism.check(s, s) to be True"""
+    n = k = k0 = ng = kg = 0
+    reasons = {}
+    for res, _why, _nt in ctx.impl_res:
+        for (cov, cov_old), hyp in zip(res.get("refl", []), res.get("refl_why", [])):
+            if res.get("searched"):
+                n += 1
+                k += cov
+                k0 += cov_old
+                if not cov:
+                    kk = " + ".join(hyp)
+                    reasons[kk] = reasons.get(kk, 0) + 1
+            else:
+                ng += 1
+                kg += cov
+    return [
+        ("covered_by_theorem C12_check_reflexive_nonempty: %d of %d searched specifications" % (k, n),
+         n == 0 or k / n >= MIN_COVERED_REFL,
+         "under the older C12_check_reflexive (every childless class, the EMPTY ones included, an atom): %d of %d; "
+         "hand-built grammar specifications covered: %d of %d; not covered: %s; minimum fraction %.2f. "
+         "Counted: both specifications of every word / statistics case; covered = eq_wf, root not empty and with a "
+         "rule, every NON-EMPTY childless class an atom, every non-empty class with children a Rule with a non-empty "
+         "child, every non-empty child has a rule - decided by the extracted run (Iso/DecidersRefl.v refl_hypsb, sound "
+         "by C12_check_reflexive_decided) and recomputed here, the two compared on every case; on every covered "
+         "specification Isomorphism.check(s, s) was REQUIRED to be True (a False / an exception is a violation)"
+         % (k0, n, kg, ng, reasons or "none", MIN_COVERED_REFL)),
+    ]
+
+
 def nontrivial(case, res):
     t = res.get("tags", [])
     if case["t"] == "q":
@@ -1279,6 +1413,7 @@ def extra_checks(ctx):
     """coverage REQUIREMENTS (each can fail): the verdicts of this check are only worth something if the inputs reach
     the branches they talk about"""
     out = list(_extra_covered(ctx))
+    out.extend(_extra_reflexive(ctx))
     out.append(("repair 91c1aef in force: the witness pair of C12_symmetric_refuted is answered False in both directions "
                 "(the model runs with exact = %d)" % exact_mode(), exact_mode() == 1,
                 "ok" if exact_mode() == 1 else "failing input: the specifications of grammars ASYM_G1 / ASYM_G2 (harness/props/c12.py; "
